@@ -58,6 +58,14 @@ Theorem T02_headers_preserved :
 Proof. exact headers_preserved. Qed.
 Print Assumptions T02_headers_preserved.
 
+(* Every field the origin's Connection field nominates (values split at commas, white space
+   around an element ignored, any letter case) is absent from the relayed header. *)
+Theorem T02_connection_nominated_removed : forall h v t,
+  In v (h_values (b "Connection") h) -> In t (split_byte 44 v) ->
+  raw_get (canon (trim_space t)) (remove_hop_by_hop h) = None.
+Proof. exact (connection_nominated_removed ob_connection_tokens_trimmed). Qed.
+Print Assumptions T02_connection_nominated_removed.
+
 (* The pattern flush writer flushes at write k iff an occurrence of a pattern ends inside
    write k — also when the occurrence straddles two writes. *)
 Theorem T02_flush_iff_boundary : forall pats ws1 w ws2,
